@@ -13,7 +13,7 @@ REPO_SRC = repo_src()
 class Contract(object):
     def __init__(self, module, qualname, params, returns=None, requires=(), ensures=(), loops=None, pure=True, modifies=(),
                  theories=('word',), decreases=(), types=None, ghost=None, defaults=None, props=(), symbol_is_regexp=False,
-                 hints=None, bounded=None, note='', variant='', asserts=(), verify=True, pre_return_asserts=()):
+                 hints=None, bounded=None, note='', variant='', asserts=(), verify=True, pre_return_asserts=(), result_shares=None):
         self.module, self.qualname = module, qualname
         self.variant = variant
         self.key = qualname + ('[%s]' % variant if variant else '')
@@ -32,6 +32,9 @@ class Contract(object):
         self.props = list(props)
         self.symbol_is_regexp = symbol_is_regexp
         self.hints = hints or {}
+        # {field: place}: the result's field is (possibly) the very object held in `place` (e.g. {'Sigma': 'self.Sigma'}), a mutable set that
+        # later calls of methods of the same object only ever enlarge.  Values obtained earlier are then re-read with an enlarged field.
+        self.result_shares = dict(result_shares or {})
         self.asserts = list(asserts)
         # proved (then assumed) before the return expression is evaluated; a list applies to every return statement, a dict
         # {'last': [...], n: [...]} to the last / the n-th return statement in source order
